@@ -43,7 +43,7 @@ def diff_named(a, b):
 def run(rep, work, rng, tier):
     common.proof_part(rep, 'C04')
     shared = work.sub('shared')
-    n = 250 if tier == 'quick' else 6000
+    n = 250 if tier == 'quick' else 24000
     cases = []
     for i in range(n):
         L = filegen.make_layout(rng); c = filegen.make_content(rng)
